@@ -433,3 +433,49 @@ T('c16i_constructor_pass_through', ['C16'],
   *_jc('    def __init__(self, *args, **kwargs):\n        super(JSONCookie, self).__init__(*args, **kwargs)\n        self._loaded_at = None\n'))
 T('c16i_constructor_unbound_base_call', ['C16'],
   *_jc('    def __init__(self, data=None, secret_key=None, new=True):\n        SecureCookie.__init__(self, data, secret_key=secret_key, new=new)\n        self._note = None\n'))
+
+# ---------------------------------------------------------------- R16.g: one cookie object, unchanged, from verification to save
+_NEXT = '        response = next(**{self.arg_name: cookie})\n'
+_STRIP = '        string = string.strip(\'"\')\n'
+B('c16i_unverified_shortcut', ['C16'], 'R16.g',
+  _unser(_STRIP + '        if string.startswith("{"):\n            return cls(json.loads(string), secret_key, False)\n        try:\n'
+         '            return super(cls, JSONCookie).unserialize(string, secret_key)\n        except Exception:\n            return cls((), secret_key, False)'))
+B('c16i_verified_cookie_annotated', ['C16'], 'R16.g',
+  _unser(_STRIP + '        try:\n            loaded = super(cls, JSONCookie).unserialize(string, secret_key)\n'
+         '        except Exception:\n            loaded = cls((), secret_key, False)\n        loaded["raw"] = string\n        return loaded'))
+B('c16i_verified_cookie_updated_in_else', ['C16'], 'R16.g',
+  _unser(_STRIP + '        try:\n            loaded = super(cls, JSONCookie).unserialize(string, secret_key)\n'
+         '        except Exception:\n            return cls((), secret_key, False)\n        else:\n            loaded.update(source="cookie")\n            return loaded'))
+B('c16i_returns_none_for_blank', ['C16'], 'R16.g',
+  _unser(_STRIP + '        if not string:\n            return None\n        try:\n'
+         '            return super(cls, JSONCookie).unserialize(string, secret_key)\n        except Exception:\n            return cls((), secret_key, False)'))
+B('c16i_cookie_rebound_before_endpoint', ['C16'], 'R16.g',
+  (CK, _NEXT, '        if not cookie:\n            cookie = self._cookie_type({"guest": True}, self.secret_key)\n' + _NEXT))
+B('c16i_cookie_copy_saved', ['C16'], 'R16.g',
+  (CK, _KWARGS, '        cookie = self._cookie_type(dict(cookie), self.secret_key, False)\n' + _KWARGS))
+B('c16i_middleware_stores_data', ['C16'], 'R16.g',
+  (CK, _NEXT, _NEXT + "        cookie['last_seen'] = time.time()\n"))
+B('c16i_middleware_counts_visits', ['C16'], 'R16.g',
+  (CK, _NEXT, "        cookie.setdefault('visits', 0)\n" + _NEXT))
+B('c16i_stamp_before_endpoint', ['C16'], 'R16.g',
+  (CK, _NEXT + _STAMP, _STAMP + _NEXT))
+B('c16i_stamp_from_request', ['C16'], 'R16.g',
+  (CK, "                cookie['_expires'] = time.time() + self.expiry\n",
+       "                ttl = request.args.get('ttl', self.expiry)\n                cookie['_expires'] = time.time() + float(ttl)\n"))
+B('c16i_signed_expiry_from_request_mapping', ['C16'], 'R16.g',
+  (CK, "            save_cookie_kwargs['expires'] = cookie['_expires']\n",
+       "            save_cookie_kwargs['expires'] = request.args.get('until') or cookie['_expires']\n"))
+B('c16i_signed_expiry_from_request_keyword', ['C16'], 'R16.g',
+  (CK, "        cookie.save_cookie(response, **save_cookie_kwargs)\n",
+       "        until = request.headers.get('X-Session-Until')\n        cookie.save_cookie(response, session_expires=until, **save_cookie_kwargs)\n"))
+T('c16i_stamp_clock_local', ['C16'],
+  (CK, "                cookie['_expires'] = time.time() + self.expiry\n",
+       "                now = time.time()\n                lifetime = self.expiry\n                cookie['_expires'] = now + lifetime\n"))
+T('c16i_blank_string_is_empty_cookie', ['C16'],
+  _unser(_STRIP + '        if not string:\n            return cls((), secret_key, False)\n        try:\n'
+         '            return super(cls, JSONCookie).unserialize(string, secret_key)\n        except Exception:\n            return cls((), secret_key, False)'))
+T('c16i_cookie_alias_saved', ['C16'],
+  (CK, "        cookie.save_cookie(response, **save_cookie_kwargs)\n", "        jar = cookie\n        jar.save_cookie(response, **save_cookie_kwargs)\n"))
+T('c16i_expiry_from_cookie_local', ['C16'],
+  (CK, "            save_cookie_kwargs['expires'] = cookie['_expires']\n",
+       "            until = cookie['_expires']\n            save_cookie_kwargs['expires'] = until\n"))
